@@ -457,7 +457,7 @@ def main(argv):
         env['VF_CRASH'] = os.path.join(work, 'reg-%s.crash' % c)
         statfiles.append(st)
         argv_ = [bins[c]['replay'], '--quiet', '--list', listfile]
-        if spec.get('sweep', True):
+        if spec.get('sweep', True) and not os.environ.get('VF_NO_SWEEP'):
             argv_.append('--sweep')
         cmds.append((argv_, env, os.path.join(work, 'reg-%s.log' % c),
                      tspec.get('reg_timeout', 600)))
@@ -491,6 +491,46 @@ def main(argv):
             with open(sw, 'w') as f:
                 f.write(out)
             candidates.append(Candidate(sw, c, out[-3000:], 'sweep'))
+
+    # ----------------------------------- named partitioned sweeps (thorough)
+    for sw in tspec.get('extra_sweeps', []):
+        if candidates and not args.keep_going:
+            break
+        cmds = []
+        meta = []
+        for c in sw.get('configs', configs[:1]):
+            if c not in bins:
+                continue
+            for i in range(sw.get('parts', NCPU)):
+                tag = 'sw-%s-%s-%d' % (sw['name'], c, i)
+                env = dict(env0)
+                st = os.path.join(work, tag + '.json')
+                env.update(VF_STATS=st, VF_SWEEP_NAME=sw['name'],
+                           VF_SWEEP_PART=str(i),
+                           VF_SWEEP_PARTS=str(sw.get('parts', NCPU)),
+                           VF_SETMAX='4096')
+                statfiles.append(st)
+                cmds.append(([bins[c]['replay'], '--quiet', '--sweep'], env,
+                             os.path.join(work, tag + '.log'),
+                             sw.get('timeout', 3600)))
+                meta.append((c, tag))
+        tsw = time.time()
+        rcs = []
+        for k in range(0, len(cmds), NCPU):
+            rcs += run_workers(cmds[k:k + NCPU])
+        log('[%s] sweep %s: %d processes, %.1fs' % (prop, sw['name'], len(cmds),
+                                                    time.time() - tsw))
+        for (c, tag), rc_, cmd in zip(meta, rcs, cmds):
+            if rc_ == 0:
+                continue
+            out = open(cmd[2], 'rb').read().decode('utf-8', 'replace')
+            if rc_ is None:
+                inconclusive.append('sweep %s hit the wall-clock limit' % tag)
+                continue
+            swf = os.path.join(work, tag + '.txt')
+            with open(swf, 'w') as f:
+                f.write(out)
+            candidates.append(Candidate(swf, c, out[-3000:], 'sweep'))
 
     # --------------------------------------------------------- rapidcheck
     rc_configs = [c for c in configs if 'rc' in bins[c]]
